@@ -106,6 +106,10 @@ bool BufferedFd::enable()
     if (sp_read_event_ != nullptr)
         sp_read_event_->enable();
 
+    //! 如果在 enable() 之前有数据积压在发送缓冲区中，则要打开可写事件，将它们发送出去
+    if (sp_write_event_ != nullptr && send_buff_.readableSize() > 0)
+        sp_write_event_->enable();
+
     state_ = State::kRunning;
 
     return true;
